@@ -1,0 +1,7 @@
+//go:build !verif
+
+package sharedfile
+
+func verifPoint(string) {}
+
+func (s *SharedFile) verifEvent(string) {}
